@@ -13,15 +13,18 @@ Proof. intros; unfold upd; now rewrite N.eqb_refl. Qed.
 Lemma upd_other : forall s p f q, q <> p -> upd s p f q = s q.
 Proof. intros s p f q H; unfold upd; destruct (N.eqb_spec q p); congruence. Qed.
 
+Lemma bind_pair_ok : forall s k, bind (s, Ok) k = k s.
+Proof. reflexivity. Qed.
+
+Lemma bind_pair_err : forall s e k, bind (s, Err e) k = (s, Err e).
+Proof. reflexivity. Qed.
+
 Lemma bind_ok : forall x k s', bind x k = (s', Ok) -> exists s1, x = (s1, Ok) /\ k s1 = (s', Ok).
 Proof.
   intros [s1 r] k s'; unfold bind; cbn [fst snd]; destruct r; intros H.
   - eauto.
   - discriminate.
 Qed.
-
-Lemma bind_snd_ok : forall x k, snd (bind x k) = Ok -> snd x = Ok /\ snd (k (fst x)) = Ok.
-Proof. intros [s1 r] k; unfold bind; cbn [fst snd]; destruct r; cbn [snd]; intros H; [auto | discriminate]. Qed.
 
 Lemma bind_ret : forall x, bind x (fun s => (s, Ok)) = x.
 Proof. intros [s r]; unfold bind; cbn [fst snd]; now destruct r. Qed.
@@ -34,33 +37,54 @@ Proof.
   now rewrite orb_true_r.
 Qed.
 
-(* the translated functions, characterised (the only lemmas that look inside them) *)
+Lemma last_mode_irrel : forall pps d d', pps <> [] -> last_mode pps d = last_mode pps d'.
+Proof. intros [|[m] r] d d' H; [congruence | reflexivity]. Qed.
+
+(* ------------------------------------------------------------------------------------------ *)
+(* the translated functions, characterised (the only lemmas that look inside them); they are    *)
+(* phrased so that they also hold if the gate is changed to reject directories                  *)
+(* ------------------------------------------------------------------------------------------ *)
 Lemma SetFileMode_call_eq : forall e s m p, SetFileMode_call e s m p = (fs_chmod e s p m, p).
 Proof. intros; unfold SetFileMode_call; rewrite ?bind_ret; reflexivity. Qed.
 
+Ltac unfold_gate H :=
+  unfold handle_overwrite; cbv [bind fst snd]; unfold fs_exists, fs_is_dir, fs_st_mode; rewrite ?H; cbv [bind fst snd negb].
+
 Lemma handle_overwrite_absent : forall e s p a, s p = None -> handle_overwrite e s p a = (s, Ok).
-Proof. intros e s p a H; unfold handle_overwrite; cbv [bind fst snd]; unfold fs_exists; now rewrite H. Qed.
+Proof. intros e s p a H. unfold_gate H. reflexivity. Qed.
 
-Lemma handle_overwrite_refuse : forall e s p f, s p = Some f -> handle_overwrite e s p false = (s, Err EExists).
-Proof. intros e s p f H; unfold handle_overwrite; cbv [bind fst snd]; unfold fs_exists; now rewrite H. Qed.
+Lemma handle_overwrite_refuse : forall e s p f, s p = Some f -> f_isdir f = false ->
+  handle_overwrite e s p false = (s, Err EExists).
+Proof. intros e s p f H D. unfold_gate H. rewrite ?D. reflexivity. Qed.
 
-Lemma handle_overwrite_allow : forall e s p f, s p = Some f ->
+Lemma handle_overwrite_refuse_any : forall e s p f, s p = Some f ->
+  exists er, handle_overwrite e s p false = (s, Err er).
+Proof. intros e s p f H. unfold_gate H. destruct (f_isdir f); eexists; reflexivity. Qed.
+
+Lemma handle_overwrite_allow : forall e s p f, s p = Some f -> f_isdir f = false ->
   handle_overwrite e s p true = fs_chmod e s p (N.lor (f_mode f) 144).
-Proof. intros e s p f H; unfold handle_overwrite; cbv [bind fst snd]; unfold fs_exists, fs_st_mode; now rewrite H. Qed.
+Proof. intros e s p f H D. unfold_gate H. rewrite ?D. reflexivity. Qed.
+
+Lemma handle_overwrite_dir : forall e s p f, s p = Some f -> f_isdir f = true ->
+  handle_overwrite e s p true = fs_chmod e s p (N.lor (f_mode f) 144) \/
+  handle_overwrite e s p true = (s, Err EIsDir).
+Proof. intros e s p f H D. unfold_gate H. rewrite ?D. first [left; reflexivity | right; reflexivity]. Qed.
 
 (* ------------------------------------------------------------------------------------------ *)
-(* the footprint relation: what any sequence of operations on paths in T can do to a state      *)
+(* the footprint relation: what any sequence of operations can do to a tree when it only        *)
+(* addresses entries in T and only creates missing directories in A                             *)
 (* ------------------------------------------------------------------------------------------ *)
 Definition meta_ok (o o' : option fmeta) : Prop :=
   match o, o' with
   | Some f, Some f' => f_owned f' = f_owned f /\ f_isdir f' = f_isdir f
-  | None, Some f' => f_owned f' = true /\ f_isdir f' = false
+  | None, Some f' => f_owned f' = true
   | None, None => True
   | Some _, None => False
   end.
 
-Definition rel (T : path -> Prop) (s s' : fs) : Prop :=
-  forall q, (~ T q -> s' q = s q) /\ meta_ok (s q) (s' q).
+Definition rel (e : env) (T A : path -> Prop) (s s' : fs) : Prop :=
+  forall q, (~ T q -> s' q = s q \/ (A q /\ s q = None /\ s' q = Some (new_dir e))) /\ meta_ok (s q) (s' q) /\
+            (s q = None -> forall f', s' q = Some f' -> f_isdir f' = true -> A q).   (* directories appear only in A *)
 
 Lemma meta_ok_refl : forall o, meta_ok o o.
 Proof. intros [f|]; cbn; auto. Qed.
@@ -69,136 +93,208 @@ Lemma meta_ok_trans : forall a b c, meta_ok a b -> meta_ok b c -> meta_ok a c.
 Proof.
   intros [a|] [b|] [c|]; cbn; intros H1 H2; auto; try contradiction.
   - destruct H1, H2; split; congruence.
-  - destruct H1, H2; split; congruence.
+  - destruct H2; congruence.
 Qed.
 
-Lemma rel_refl : forall T s, rel T s s.
-Proof. intros T s q; split; auto using meta_ok_refl. Qed.
+Lemma rel_refl : forall e T A s, rel e T A s s.
+Proof. intros e T A s q; split; [|split]; auto using meta_ok_refl. intros H f' E; congruence. Qed.
 
-Lemma rel_trans : forall T s1 s2 s3, rel T s1 s2 -> rel T s2 s3 -> rel T s1 s3.
+Lemma rel_trans : forall e T A s1 s2 s3, rel e T A s1 s2 -> rel e T A s2 s3 -> rel e T A s1 s3.
 Proof.
-  intros T s1 s2 s3 H1 H2 q. destruct (H1 q) as [A1 B1], (H2 q) as [A2 B2]. split.
-  - intros H. rewrite A2, A1; auto.
+  intros e T A s1 s2 s3 H1 H2 q. destruct (H1 q) as [A1 [B1 C1]], (H2 q) as [A2 [B2 C2]]. split; [|split].
+  - intros H. destruct (A1 H) as [E1|[Aq [N1 E1]]], (A2 H) as [E2|[Aq2 [N2 E2]]].
+    + left; congruence.
+    + right. split; [exact Aq2 | split; congruence].
+    + right. split; [exact Aq | split; congruence].
+    + congruence.
   - eauto using meta_ok_trans.
+  - intros N1 f3 E3 D3. destruct (s2 q) as [f2|] eqn:E2.
+    + apply (C1 N1 f2 eq_refl). rewrite E3 in B2. cbn in B2. destruct B2 as [_ B2]. congruence.
+    + now apply (C2 eq_refl f3).
 Qed.
 
-Lemma rel_weaken : forall (T T' : path -> Prop) s s', (forall q, T q -> T' q) -> rel T s s' -> rel T' s s'.
-Proof. intros T T' s s' H R q. destruct (R q) as [A B]. split; auto. Qed.
-
-Lemma rel_upd_meta : forall (T : path -> Prop) s p f, T p -> meta_ok (s p) (Some f) -> rel T s (upd s p f).
+Lemma rel_weaken : forall e (T T' A A' : path -> Prop) s s',
+  (forall q, T q -> T' q) -> (forall q, A q -> A' q) -> rel e T A s s' -> rel e T' A' s s'.
 Proof.
-  intros T s p f Tp M q. destruct (N.eq_dec q p) as [->|Hq].
-  - rewrite upd_same. split; [intros H; contradiction | exact M].
-  - rewrite upd_other by exact Hq. split; auto using meta_ok_refl.
+  intros e T T' A A' s s' HT HA R q. destruct (R q) as [X [Y Z0]]. split; [|split]; auto.
+  - intros H. destruct (X (fun t => H (HT q t))) as [E|[Aq Z]]; [left; exact E | right; split; auto].
+  - intros N f' E D. apply HA. eapply Z0; eauto.
 Qed.
 
-Definition rel_fn (T : path -> Prop) (f : fs -> fs * result) : Prop := forall s, rel T s (fst (f s)).
-
-Lemma rel_bind : forall T f k s, rel_fn T f -> rel_fn T k -> rel T s (fst (bind (f s) k)).
+Lemma rel_upd_T : forall e (T A : path -> Prop) s p f, T p -> meta_ok (s p) (Some f) -> (s p = None -> f_isdir f = false) ->
+  rel e T A s (upd s p f).
 Proof.
-  intros T f k s Hf Hk. specialize (Hf s). destruct (f s) as [s1 r]; unfold bind; cbn [fst snd] in *.
+  intros e T A s p f Tp M D q. destruct (N.eq_dec q p) as [->|Hq].
+  - rewrite upd_same. split; [intros H; contradiction | split; [exact M|]].
+    intros N f' E D'. injection E as <-. rewrite (D N) in D'. discriminate.
+  - rewrite upd_other by exact Hq. apply rel_refl.
+Qed.
+
+Lemma rel_upd_A : forall e (T A : path -> Prop) s a, A a -> s a = None -> rel e T A s (upd s a (new_dir e)).
+Proof.
+  intros e T A s a Aa N q. destruct (N.eq_dec q a) as [->|Hq].
+  - rewrite upd_same. split; [intros _; right; auto | split; [rewrite N; reflexivity | auto]].
+  - rewrite upd_other by exact Hq. apply rel_refl.
+Qed.
+
+Definition rel_fn (e : env) (T A : path -> Prop) (f : fs -> fs * result) : Prop := forall s, rel e T A s (fst (f s)).
+
+Lemma rel_bind : forall e T A f k s, rel_fn e T A f -> rel_fn e T A k -> rel e T A s (fst (bind (f s) k)).
+Proof.
+  intros e T A f k s Hf Hk. specialize (Hf s). destruct (f s) as [s1 r]; unfold bind; cbn [fst snd] in *.
   destruct r; cbn [fst]; [eapply rel_trans; [exact Hf | apply Hk] | exact Hf].
 Qed.
 
-Section WithRender.
-Variable render : N -> path -> N.
+Section Footprint.
+Variable render : fs -> N -> N -> path -> N.
 Variable e : env.
 
-Lemma fs_chmod_rel : forall (T : path -> Prop) p m, T p -> rel_fn T (fun s => fs_chmod e s p m).
+Lemma fs_chmod_rel : forall (T A : path -> Prop) p m, T p -> rel_fn e T A (fun s => fs_chmod e s p m).
 Proof.
-  intros T p m Tp s; unfold fs_chmod. destruct (s p) as [f|] eqn:E; cbn [fst]; [|apply rel_refl].
+  intros T A p m Tp s; unfold fs_chmod. destruct (s p) as [f|] eqn:E; cbn [fst]; [|apply rel_refl].
   destruct (superuser e || f_owned f); cbn [fst]; [|apply rel_refl].
-  apply rel_upd_meta; auto. rewrite E; cbn; auto.
+  apply rel_upd_T; auto; [rewrite E; cbn; auto | congruence].
 Qed.
 
-Lemma fs_write_rel : forall (T : path -> Prop) p c, T p -> rel_fn T (fun s => fs_write e s p c).
+Lemma fs_write_in_rel : forall (T A : path -> Prop) d q c, T q -> rel_fn e T A (fun s => fs_write_in e s d q c).
 Proof.
-  intros T p c Tp s; unfold fs_write. destruct (s p) as [f|] eqn:E.
+  intros T A d q c Tq s; unfold fs_write_in. destruct (s q) as [f|] eqn:E.
   - destruct (f_isdir f); cbn [fst]; [apply rel_refl|]. destruct (writable e f); cbn [fst]; [|apply rel_refl].
-    apply rel_upd_meta; auto. rewrite E; cbn; auto.
-  - destruct (can_create e p); cbn [fst]; [|apply rel_refl].
-    apply rel_upd_meta; auto. rewrite E; cbn; auto.
+    apply rel_upd_T; auto; [rewrite E; cbn; auto | congruence].
+  - destruct (allows e s d); cbn [fst]; [|apply rel_refl].
+    apply rel_upd_T; auto. rewrite E; cbn; auto.
 Qed.
 
-Lemma fs_copy_rel : forall (T : path -> Prop) p c m, T p -> rel_fn T (fun s => fs_copy e s p c m).
+Lemma fs_copy_rel : forall (T A : path -> Prop) p c m, T p -> T (child e p) -> rel_fn e T A (fun s => fs_copy e s p c m).
 Proof.
-  intros T p c m Tp s. unfold fs_copy.
-  apply (rel_bind T (fun s => fs_write e s p c) (fun s1 => fs_chmod e s1 p m)).
-  - now apply fs_write_rel.
-  - now apply fs_chmod_rel.
+  intros T A p c m Tp Tc s. unfold fs_copy. destruct (fs_is_dir s p).
+  - apply (rel_bind e T A (fun s => fs_write_in e s (Some p) (child e p) c) (fun s1 => fs_chmod e s1 (child e p) m)).
+    + now apply fs_write_in_rel.
+    + now apply fs_chmod_rel.
+  - apply (rel_bind e T A (fun s => fs_write e s p c) (fun s1 => fs_chmod e s1 p m)).
+    + intros s0. now apply fs_write_in_rel.
+    + now apply fs_chmod_rel.
 Qed.
 
-Lemma handle_overwrite_rel : forall (T : path -> Prop) p a, T p -> rel_fn T (fun s => handle_overwrite e s p a).
+Lemma mkdirs_rel : forall (T A : path -> Prop) l prev, (forall a, In a l -> A a) -> rel_fn e T A (mkdirs e prev l).
 Proof.
-  intros T p a Tp s. destruct (s p) as [f|] eqn:E.
+  intros T A l. induction l as [|a r IH]; intros prev HA s; cbn [mkdirs].
+  - apply rel_refl.
+  - destruct (s a) as [f|] eqn:E.
+    + destruct (f_isdir f); [|apply rel_refl]. apply IH. intros x Hx; apply HA; now right.
+    + destruct (allows e s prev); [|apply rel_refl].
+      eapply rel_trans; [apply rel_upd_A; [apply HA; now left | exact E] |].
+      apply IH. intros x Hx; apply HA; now right.
+Qed.
+
+Lemma handle_overwrite_rel : forall (T A : path -> Prop) p a, T p -> rel_fn e T A (fun s => handle_overwrite e s p a).
+Proof.
+  intros T A p a Tp s. destruct (s p) as [f|] eqn:E.
   - destruct a.
-    + rewrite (handle_overwrite_allow e s p f E). now apply fs_chmod_rel.
-    + rewrite (handle_overwrite_refuse e s p f E). apply rel_refl.
+    + destruct (f_isdir f) eqn:D.
+      * destruct (handle_overwrite_dir e s p f E D) as [H|H]; rewrite H; [now apply fs_chmod_rel | apply rel_refl].
+      * rewrite (handle_overwrite_allow e s p f E D). now apply fs_chmod_rel.
+    + destruct (handle_overwrite_refuse_any e s p f E) as [er H]. rewrite H. apply rel_refl.
   - rewrite handle_overwrite_absent by exact E. apply rel_refl.
 Qed.
 
-Lemma run_filepps_rel : forall (T : path -> Prop) p pps, T p -> rel_fn T (fun s => run_filepps e s p pps).
+Lemma run_filepps_rel : forall (T A : path -> Prop) p pps, T p -> rel_fn e T A (fun s => run_filepps e s p pps).
 Proof.
-  intros T p pps Tp. induction pps as [|[m] r IH]; intros s; cbn [run_filepps].
+  intros T A p pps Tp. induction pps as [|[m] r IH]; intros s; cbn [run_filepps].
   - apply rel_refl.
   - rewrite SetFileMode_call_eq; cbn [fst snd].
-    apply (rel_bind T (fun s => fs_chmod e s p m) (fun s1 => run_filepps e s1 p r)); auto.
+    apply (rel_bind e T A (fun s => fs_chmod e s p m) (fun s1 => run_filepps e s1 p r)); auto.
     now apply fs_chmod_rel.
 Qed.
 
-Lemma run_act0_rel : forall (T : path -> Prop) c p a, T p -> rel_fn T (run_act0 render e c p a).
+Definition is_copy (a : act) : bool := match a with AShutilCopy => true | _ => false end.
+
+Lemma run_act_rel : forall (T A : path -> Prop) c p a,
+  T p -> (is_copy a = true -> T (child e p)) -> (forall x, In x (ancestors e p) -> A x) ->
+  rel_fn e T A (run_act render e c p a).
 Proof.
-  intros T c p a Tp s. destruct a; cbn [run_act0]; try apply rel_refl.
+  intros T A c p a Tp Tc HA s. destruct a; cbn [run_act]; try apply rel_refl.
   - now apply handle_overwrite_rel.
-  - destruct (fs_exists s p || can_create e p); apply rel_refl.
-  - now apply fs_write_rel.
-  - now apply fs_copy_rel.
+  - now apply mkdirs_rel.
+  - now apply fs_write_in_rel.
+  - apply fs_copy_rel; auto.
   - now apply run_filepps_rel.
 Qed.
 
-Lemma run_skel0_rel : forall (T : path -> Prop) c p k, T p -> rel_fn T (run_skel0 render e c p k).
+Lemma run_acts_rel : forall (T A : path -> Prop) c p l,
+  T p -> (existsb is_copy l = true -> T (child e p)) -> (forall x, In x (ancestors e p) -> A x) ->
+  rel_fn e T A (run_acts render e c p l).
 Proof.
-  intros T c p k Tp. induction k as [|[gs a] r IH]; intros s; cbn [run_skel0].
+  intros T A c p l Tp Tc HA. induction l as [|a r IH]; intros s; cbn [run_acts].
   - apply rel_refl.
-  - apply (rel_bind T (fun s => if forallb (guard_holds c) gs then run_act0 render e c p a s else (s, Ok))); auto.
-    intros s1. destruct (forallb (guard_holds c) gs); [now apply run_act0_rel | apply rel_refl].
+  - cbn [existsb] in Tc. apply (rel_bind e T A (run_act render e c p a) (run_acts render e c p r)).
+    + apply run_act_rel; auto. intros H. apply Tc. now rewrite H.
+    + apply IH. intros H. apply Tc. rewrite H. apply orb_true_r.
 Qed.
 
-Lemma run_act1_rel : forall (T : path -> Prop) c p a, T p -> rel_fn T (run_act1 render e c p a).
+Lemma existsb_firstn : forall (f : act -> bool) j l, existsb f (firstn j l) = true -> existsb f l = true.
 Proof.
-  intros T c p a Tp s. destruct a; cbn [run_act1]; try (now apply run_act0_rel); now apply run_skel0_rel.
+  intros f j. induction j as [|j IH]; intros [|a r]; cbn [firstn existsb]; try discriminate; auto.
+  intros H. apply orb_true_iff in H. apply orb_true_iff. destruct H; [left | right]; auto.
 Qed.
 
-Lemma run_skel1_rel : forall (T : path -> Prop) c p k, T p -> rel_fn T (run_skel1 render e c p k).
+(* the sets for a whole configuration *)
+Definition touch (c : cfg) (q : path) : Prop := In q (targets c) \/ In q (child_targets e c).
+Definition anc (c : cfg) (q : path) : Prop := In q (dir_targets e c).
+
+Lemma item_touch : forall c it, In it (items c) -> touch c (fst it).
+Proof. intros c it H. left. unfold targets. now apply in_map. Qed.
+
+Lemma item_child_touch : forall c it, In it (items c) -> copies c (snd it) = true -> touch c (child e (fst it)).
 Proof.
-  intros T c p k Tp. induction k as [|[gs a] r IH]; intros s; cbn [run_skel1].
-  - apply rel_refl.
-  - apply (rel_bind T (fun s => if forallb (guard_holds c) gs then run_act1 render e c p a s else (s, Ok))); auto.
-    intros s1. destruct (forallb (guard_holds c) gs); [now apply run_act1_rel | apply rel_refl].
+  intros c it H Hc. right. unfold child_targets, copy_targets. apply in_map. apply (in_map fst).
+  apply filter_In. split; assumption.
 Qed.
 
-Lemma write_item_rel : forall (T : path -> Prop) c it, T (fst it) -> rel_fn T (fun s => write_item render e c s it).
-Proof. intros T c it Tp s. unfold write_item. now apply run_skel1_rel. Qed.
-
-Lemma run_list_rel : forall (A : Type) (T : path -> Prop) (f : fs -> A -> fs * result) l,
-  (forall x, In x l -> rel_fn T (fun s => f s x)) -> rel_fn T (fun s => run_list f s l).
+Lemma item_anc : forall c it x, In it (items c) -> In x (ancestors e (fst it)) -> anc c x.
 Proof.
-  intros A T f l. induction l as [|x r IH]; intros H s; cbn [run_list].
+  intros c it x H Hx. unfold anc, dir_targets. apply in_flat_map. exists (fst it). split; [|exact Hx].
+  unfold targets. now apply in_map.
+Qed.
+
+Lemma write_item_rel : forall c it, In it (items c) -> rel_fn e (touch c) (anc c) (fun s => write_item render e c s it).
+Proof.
+  intros c it H s. unfold write_item. apply run_acts_rel.
+  - now apply item_touch.
+  - intros Hc. now apply item_child_touch.
+  - intros x Hx. eapply item_anc; eauto.
+Qed.
+
+Lemma write_item_prefix_rel : forall c it j, In it (items c) ->
+  rel_fn e (touch c) (anc c) (run_acts render e c (fst it) (firstn j (flat_acts c (snd it)))).
+Proof.
+  intros c it j H s. apply run_acts_rel.
+  - now apply item_touch.
+  - intros Hc. apply item_child_touch; [exact H|]. unfold copies. eapply existsb_firstn. exact Hc.
+  - intros x Hx. eapply item_anc; eauto.
+Qed.
+
+Lemma run_list_rel : forall (A0 : Type) (T A : path -> Prop) (f : fs -> A0 -> fs * result) l,
+  (forall x, In x l -> rel_fn e T A (fun s => f s x)) -> rel_fn e T A (fun s => run_list f s l).
+Proof.
+  intros A0 T A f l. induction l as [|x r IH]; intros H s; cbn [run_list].
   - apply rel_refl.
-  - apply (rel_bind T (fun s => f s x) (fun s1 => run_list f s1 r)).
+  - apply (rel_bind e T A (fun s => f s x) (fun s1 => run_list f s1 r)).
     + apply H; now left.
     + apply IH. intros y Hy. apply H; now right.
 Qed.
 
-Lemma items_rel : forall c l, rel_fn (fun q => In q (map fst l)) (fun s => run_list (write_item render e c) s l).
-Proof.
-  intros c l. apply run_list_rel. intros it Hit. apply write_item_rel. now apply in_map.
-Qed.
+Lemma incl_firstn : forall (A0 : Type) n (l : list A0) x, In x (firstn n l) -> In x l.
+Proof. intros A0 n. induction n as [|n IH]; intros [|a r] x; cbn [firstn In]; try tauto. intros [->|H]; [now left | right; auto]. Qed.
 
-Lemma run_list_app : forall (A : Type) (f : fs -> A -> fs * result) l1 l2 s,
+Lemma sublist_rel : forall c l, (forall it, In it l -> In it (items c)) ->
+  rel_fn e (touch c) (anc c) (fun s => run_list (write_item render e c) s l).
+Proof. intros c l H. apply run_list_rel. intros it Hit. apply write_item_rel. auto. Qed.
+
+Lemma run_list_app : forall (A0 : Type) (f : fs -> A0 -> fs * result) l1 l2 s,
   run_list f s (l1 ++ l2) = bind (run_list f s l1) (fun s1 => run_list f s1 l2).
 Proof.
-  intros A f l1 l2. induction l1 as [|x r IH]; intros s; cbn [run_list app].
+  intros A0 f l1 l2. induction l1 as [|x r IH]; intros s; cbn [run_list app].
   - reflexivity.
   - destruct (f s x) as [s1 [|er]]; unfold bind at 1 3; cbn [fst snd].
     + apply IH.
@@ -217,95 +313,187 @@ Proof.
     + reflexivity.
 Qed.
 
-Lemma step_rel : forall c, rel_fn (fun q => In q (targets c)) (fun s => step render e s c).
-Proof. intros c s. rewrite step_flat. apply items_rel. Qed.
+Lemma step_rel : forall c, rel_fn e (touch c) (anc c) (fun s => step render e s c).
+Proof. intros c s. rewrite step_flat. now apply sublist_rel. Qed.
 
-Lemma history_rel : forall h s, rel (fun q => exists c, In c h /\ In q (targets c)) s (history render e s h).
+Lemma step_crash_rel : forall c n j junk s, rel e (touch c) (anc c) s (step_crash render e s c n j junk).
 Proof.
-  induction h as [|c r IH]; intros s; cbn [history fold_left].
+  intros c n j junk s. unfold step_crash.
+  assert (R1 : rel e (touch c) (anc c) s (fst (run_list (write_item render e c) s (firstn n (items c))))).
+  { apply sublist_rel. intros it. apply incl_firstn. }
+  destruct (snd (run_list (write_item render e c) s (firstn n (items c)))); [|exact R1].
+  destruct (nth_error (items c) n) as [it|] eqn:E; [|exact R1].
+  apply nth_error_In in E.
+  assert (R2 : rel e (touch c) (anc c) s
+                 (fst (run_acts render e c (fst it) (firstn j (flat_acts c (snd it)))
+                         (fst (run_list (write_item render e c) s (firstn n (items c))))))).
+  { eapply rel_trans; [exact R1|]. apply (write_item_prefix_rel c it j E). }
+  destruct (snd (run_acts render e c (fst it) (firstn j (flat_acts c (snd it)))
+                   (fst (run_list (write_item render e c) s (firstn n (items c)))))); [|exact R2].
+  destruct junk as [g|]; [|exact R2].
+  eapply rel_trans; [exact R2|].
+  apply (fs_write_in_rel (touch c) (anc c) (parent_of e (fst it)) (fst it) g). now apply item_touch.
+Qed.
+
+Definition touch_h (h : list event) (q : path) : Prop := exists ev, In ev h /\ touch (ev_cfg ev) q.
+Definition anc_h (h : list event) (q : path) : Prop := exists ev, In ev h /\ anc (ev_cfg ev) q.
+
+Lemma event_rel : forall ev s, rel e (touch (ev_cfg ev)) (anc (ev_cfg ev)) s (apply_event render e s ev).
+Proof. intros [c|c n j junk] s; cbn [apply_event ev_cfg]; [apply step_rel | apply step_crash_rel]. Qed.
+
+Lemma history_rel : forall h s, rel e (touch_h h) (anc_h h) s (history render e s h).
+Proof.
+  induction h as [|ev r IH]; intros s; cbn [history fold_left].
   - apply rel_refl.
   - eapply rel_trans.
-    + eapply rel_weaken; [|apply (step_rel c s)]. intros q Hq. exists c; split; [now left | exact Hq].
-    + eapply rel_weaken; [|apply IH]. intros q [c' [Hc Hq]]. exists c'; split; [now right | exact Hq].
+    + eapply rel_weaken; [| |apply (event_rel ev s)]; intros q Hq; exists ev; split; auto; now left.
+    + eapply rel_weaken; [| |apply IH]; intros q [ev' [Hc Hq]]; exists ev'; split; auto; now right.
 Qed.
 
-(* ---- foreign_untouched ------------------------------------------------------------------- *)
-Theorem foreign_untouched_step : forall s c q, ~ In q (targets c) -> fst (step render e s c) q = s q.
-Proof. intros s c q H. now apply (step_rel c s q). Qed.
-
-Theorem foreign_untouched_history : forall h s q, (forall c, In c h -> ~ In q (targets c)) -> history render e s h q = s q.
-Proof.
-  intros h s q H. apply (history_rel h s q). intros [c [Hc Hq]]. exact (H c Hc Hq).
-Qed.
-
-(* ---- the invariant: every entry is a regular file or directory the runner may chmod; no run breaks it ---- *)
+(* consequences of the footprint *)
 Definition chmodable (s : fs) : Prop := forall q f, s q = Some f -> superuser e || f_owned f = true.
 
-Lemma rel_chmodable : forall T s s', rel T s s' -> chmodable s -> chmodable s'.
+Lemma rel_chmodable : forall T A s s', rel e T A s s' -> chmodable s -> chmodable s'.
 Proof.
-  intros T s s' R H q f' E. destruct (R q) as [_ M]. rewrite E in M. destruct (s q) as [f|] eqn:E0; cbn in M.
+  intros T A s s' R H q f' E. destruct (R q) as [_ [M _]]. rewrite E in M. destruct (s q) as [f|] eqn:E0; cbn in M.
   - destruct M as [M _]. rewrite M. eauto.
-  - destruct M as [M _]. rewrite M. apply orb_true_r.
+  - rewrite M. apply orb_true_r.
 Qed.
 
-Lemma rel_isdir : forall T s s' q f', rel T s s' -> s' q = Some f' ->
-  match s q with Some f => f_isdir f' = f_isdir f | None => f_isdir f' = false end.
+Lemma rel_keeps_kind : forall T A s s' q f, rel e T A s s' -> s q = Some f ->
+  exists f', s' q = Some f' /\ f_isdir f' = f_isdir f /\ f_owned f' = f_owned f.
 Proof.
-  intros T s s' q f' R E. destruct (R q) as [_ M]. rewrite E in M. destruct (s q); cbn in M; tauto.
+  intros T A s s' q f R E. destruct (R q) as [_ [M _]]. rewrite E in M. destruct (s' q) as [f'|]; cbn in M; [|contradiction].
+  exists f'. tauto.
 Qed.
 
-Lemma rel_exists : forall T s s' q, rel T s s' -> s q <> None -> s' q <> None.
-Proof.
-  intros T s s' q R H. destruct (R q) as [_ M]. destruct (s q); [|congruence]. destruct (s' q); [congruence | contradiction].
-Qed.
-
-End WithRender.
+End Footprint.
 
 (* ------------------------------------------------------------------------------------------ *)
-(* one writer on one path: every scenario, by symbolic execution of the translated skeletons      *)
+(* directory chains                                                                             *)
 (* ------------------------------------------------------------------------------------------ *)
-Lemma bind_pair_ok : forall s k, bind (s, Ok) k = k s.
-Proof. reflexivity. Qed.
-Lemma bind_pair_err : forall s e k, bind (s, Err e) k = (s, Err e).
-Proof. reflexivity. Qed.
+Section Mkdirs.
+Variable e : env.
 
-Lemma last_mode_irrel : forall pps d d', pps <> [] -> last_mode pps d = last_mode pps d'.
-Proof. intros [|[m] r] d d' H; [congruence | reflexivity]. Qed.
+Lemma mkdirs_other : forall l prev s q, ~ In q l -> fst (mkdirs e prev l s) q = s q.
+Proof.
+  induction l as [|a r IH]; intros prev s q H; cbn [mkdirs]; [reflexivity|].
+  assert (Hr : ~ In q r) by (intros X; apply H; now right).
+  assert (Hq : q <> a) by (intros ->; apply H; now left).
+  destruct (s a) as [f|] eqn:E.
+  - destruct (f_isdir f); [now apply IH | reflexivity].
+  - destruct (allows e s prev); [|reflexivity]. rewrite IH by exact Hr. now apply upd_other.
+Qed.
 
-Ltac unfold_writer Hd :=
-  unfold write_item, skel_of_kind, generate_type_skel, generate_header_skel, copy_header_skel;
-  cbn [fst snd run_skel1 run_act1 forallb guard_holds]; rewrite ?Hd; cbn [negb andb];
-  unfold generate_code_skel, copy_header_using_line_pps_skel;
-  cbn [fst snd run_skel0 run_act0 forallb guard_holds andb].
+Lemma mkdirs_err_kind : forall l prev s er, snd (mkdirs e prev l s) = Err er -> er = ENotDir \/ er = EAccess.
+Proof.
+  induction l as [|a r IH]; intros prev s er; cbn [mkdirs]; [discriminate|].
+  destruct (s a) as [f|].
+  - destruct (f_isdir f); [apply IH | cbn; intros H; injection H as <-; now left].
+  - destruct (allows e s prev); [apply IH | cbn; intros H; injection H as <-; now right].
+Qed.
+
+Lemma mkdirs_mono : forall l prev s s',
+  (forall a, In a l -> s' a = s a \/ (s a = None /\ s' a = Some (new_dir e))) ->
+  (allows e s prev = true -> allows e s' prev = true) ->
+  snd (mkdirs e prev l s) = Ok ->
+  snd (mkdirs e prev l s') = Ok /\
+  (allows e (fst (mkdirs e prev l s)) (last_from prev l) = true ->
+   allows e (fst (mkdirs e prev l s')) (last_from prev l) = true).
+Proof.
+  induction l as [|a r IH]; intros prev s s' H1 H2; cbn [mkdirs last_from fst snd]; [auto|].
+  assert (Hr : forall s0 s0', (forall b, b <> a -> s0 b = s b) -> (forall b, b <> a -> s0' b = s' b) -> s0' a = s0 a ->
+                forall b, In b r -> s0' b = s0 b \/ (s0 b = None /\ s0' b = Some (new_dir e))).
+  { intros s0 s0' X X' Ya b Hb. destruct (N.eq_dec b a) as [->|Hne]; [left; exact Ya|].
+    rewrite X, X' by exact Hne. apply H1. now right. }
+  destruct (H1 a (or_introl eq_refl)) as [Ea|[Ea Ea']]; destruct (s a) as [f|] eqn:E.
+  - rewrite Ea. destruct (f_isdir f); [|discriminate]. apply IH.
+    + apply (Hr s s'); auto; congruence.
+    + unfold allows. now rewrite Ea, E.
+  - rewrite Ea. destruct (allows e s prev) eqn:Al; [|discriminate]. rewrite (H2 eq_refl). apply IH.
+    + apply (Hr (upd s a (new_dir e)) (upd s' a (new_dir e))); intros; rewrite ?upd_same, ?upd_other; auto.
+    + unfold allows. now rewrite !upd_same.
+  - discriminate.
+  - rewrite Ea'. cbn [new_dir f_isdir]. destruct (allows e s prev) eqn:Al; [|discriminate]. apply IH.
+    + apply (Hr (upd s a (new_dir e)) s'); intros; rewrite ?upd_same, ?upd_other; auto.
+    + unfold allows. now rewrite upd_same, Ea'.
+Qed.
+
+(* mkdir -p of the chain succeeds, and then: a missing target can be created in its directory / an existing one is a regular file *)
+Definition ready (s : fs) (p : path) : bool :=
+  is_ok (snd (mkdirs e None (ancestors e p) s)) &&
+  match s p with
+  | None => allows e (fst (mkdirs e None (ancestors e p) s)) (parent_of e p)
+  | Some f => negb (f_isdir f)
+  end.
+
+Lemma ready_preserved : forall (T A : path -> Prop) s s' p,
+  rel e T A s s' -> (forall q, In q (ancestors e p) -> ~ T q) -> ~ A p -> ready s p = true -> ready s' p = true.
+Proof.
+  intros T A s s' p R HT HA H. unfold ready in *. apply andb_true_iff in H. destruct H as [H1 H2].
+  destruct (snd (mkdirs e None (ancestors e p) s)) eqn:EM; [|discriminate].
+  destruct (mkdirs_mono (ancestors e p) None s s') as [M1 M2]; auto.
+  { intros a Ha. destruct (R a) as [X _]. destruct (X (HT a Ha)) as [Y|[_ Y]]; [left | right]; auto. }
+  rewrite M1. cbn [is_ok andb]. destruct (R p) as [_ [M C]].
+  destruct (s p) as [f|] eqn:E; destruct (s' p) as [f'|] eqn:E'; cbn in M; try contradiction.
+  - destruct M as [_ M]. now rewrite M.
+  - destruct (f_isdir f') eqn:D; [|reflexivity]. exfalso. apply HA. now apply (C eq_refl f').
+  - now apply M2.
+Qed.
+End Mkdirs.
+
+(* ------------------------------------------------------------------------------------------ *)
+(* one writer on one path: the shape of the translated skeletons, then every scenario           *)
+(* ------------------------------------------------------------------------------------------ *)
+Definition env_wf (e : env) : Prop := forall p, ~ In p (ancestors e p).     (* no path is its own ancestor *)
+
+Definition body (c : cfg) (k : ikind) : act :=
+  match k with ISupport false => if c_linepps c then AOpenWrite else AShutilCopy | _ => AOpenWrite end.
+
+Lemma flat_acts_shape : forall c k, c_dryrun c = false ->
+  flat_acts c k = [AHandleOverwrite; AMkdirParents; body c k; AFilePPs].
+Proof.
+  intros c k Hd. destruct k as [|[|]]; unfold flat_acts, skel_of_kind, guarded, body,
+    generate_type_skel, generate_header_skel, copy_header_skel; cbn [flat_map forallb guard_holds fst snd app];
+    rewrite ?Hd; cbn [negb andb app flat_map inline]; unfold guarded, generate_code_skel, copy_header_using_line_pps_skel;
+    cbn [flat_map forallb guard_holds fst snd app]; try reflexivity.
+  destruct (c_linepps c); cbn [negb andb app flat_map inline]; unfold guarded, copy_header_using_line_pps_skel;
+    cbn [flat_map forallb fst snd app]; reflexivity.
+Qed.
+
+Lemma flat_acts_dry : forall c k, c_dryrun c = true -> flat_acts c k = [].
+Proof.
+  intros c k Hd. destruct k as [|[|]]; unfold flat_acts, skel_of_kind, guarded,
+    generate_type_skel, generate_header_skel, copy_header_skel; cbn [flat_map forallb guard_holds fst snd app];
+    rewrite ?Hd; cbn [negb andb app flat_map]; reflexivity.
+Qed.
+
+Lemma copies_body : forall c k, c_dryrun c = false -> copies c k = is_copy (body c k).
+Proof. intros c k Hd. unfold copies. rewrite flat_acts_shape by exact Hd. cbn [existsb]. now rewrite orb_false_r. Qed.
+
+Lemma copies_dry : forall c k, c_dryrun c = true -> copies c k = false.
+Proof. intros c k Hd. unfold copies. now rewrite flat_acts_dry. Qed.
 
 Ltac ex := repeat (first [ rewrite bind_pair_ok | rewrite bind_pair_err | rewrite bind_ret ]; cbv beta).
 
 Section W.
-Variable render : N -> path -> N.
+Variable render : fs -> N -> N -> path -> N.
 Variable e : env.
+Hypothesis Hind : render_independent render.
+Hypothesis Hwf : env_wf e.
 
 Lemma run_filepps_full : forall p pps s f, s p = Some f -> superuser e || f_owned f = true ->
   exists s', run_filepps e s p pps = (s', Ok) /\
-             s' p = Some (mkF (f_cid f) (last_mode pps (f_mode f)) (f_owned f) (f_isdir f)).
+             s' p = Some (mkF (f_cid f) (last_mode pps (f_mode f)) (f_owned f) (f_isdir f)) /\
+             forall q, q <> p -> s' q = s q.
 Proof.
   intros p pps. induction pps as [|[m] r IH]; intros s f E Hp; cbn [run_filepps last_mode].
-  - exists s. split; [reflexivity|]. rewrite E. now destruct f.
+  - exists s. split; [reflexivity|]. split; [|reflexivity]. rewrite E. now destruct f.
   - rewrite SetFileMode_call_eq; cbn [fst snd]. unfold fs_chmod. rewrite E, Hp. rewrite bind_pair_ok.
-    destruct (IH (upd s p (set_mode f (N.land m 4095))) (set_mode f (N.land m 4095))) as [s' [H1 H2]].
+    destruct (IH (upd s p (set_mode f (N.land m 4095))) (set_mode f (N.land m 4095))) as [s' [H1 [H2 H3]]].
     + apply upd_same.
     + exact Hp.
-    + exists s'. split; [exact H1 | exact H2].
-Qed.
-
-Variable c : cfg.
-Variable p : path.
-Hypothesis Hd : c_dryrun c = false.
-
-Lemma W_absent_nocreate : forall k s, s p = None -> can_create e p = false ->
-  write_item render e c s (p, k) = (s, Err EAccess).
-Proof.
-  intros k s E Hc. destruct k as [|[|]]; [| |destruct (c_linepps c) eqn:Hl]; unfold_writer Hd; rewrite ?Hl; cbn [negb andb];
-  rewrite (handle_overwrite_absent e s p _ E); ex; unfold fs_exists; rewrite E, Hc; cbn [orb]; ex; reflexivity.
+    + exists s'. split; [exact H1 | split; [exact H2|]]. intros q Hq. rewrite H3 by exact Hq. now apply upd_other.
 Qed.
 
 Lemma writable_after_gate : forall f m, superuser e || f_owned f = true ->
@@ -315,131 +503,291 @@ Proof.
   destruct (superuser e); cbn [orb] in *; [reflexivity | now rewrite H].
 Qed.
 
-Definition R := render (c_class c) p.
+Variable c : cfg.
+Variable p : path.
+Hypothesis Hd : c_dryrun c = false.
 
-Lemma W_absent_create : forall k s, s p = None -> can_create e p = true ->
-  exists s' f', write_item render e c s (p, k) = (s', Ok) /\ s' p = Some f' /\ f_cid f' = R /\
-                f_owned f' = true /\ f_isdir f' = false /\
-                (c_filepps c <> [] -> f_mode f' = last_mode (c_filepps c) 0).
+Definition R := render empty_fs 0 (c_class c) p.
+Notation M := (mkdirs e None (ancestors e p)).
+Notation W k s := (write_item render e c s (p, k)).
+
+(* what a successful write leaves *)
+Definition written (s' : fs) (own : bool) : Prop :=
+  exists f', s' p = Some f' /\ f_cid f' = R /\ f_owned f' = own /\ f_isdir f' = false /\
+             (c_filepps c <> [] -> f_mode f' = last_mode (c_filepps c) 0).
+
+Ltac open_writer := unfold write_item; cbn [fst snd]; rewrite (flat_acts_shape c _ Hd); cbn [run_acts run_act].
+
+(* the body and the file post-processors, on a state where p is absent and its directory accepts it *)
+Lemma tail_absent : forall k s2, s2 p = None -> allows e s2 (parent_of e p) = true ->
+  exists s', bind (run_act render e c p (body c k) s2) (fun s3 => bind (run_filepps e s3 p (c_filepps c)) (fun s4 => (s4, Ok))) = (s', Ok)
+             /\ written s' true /\ forall q, q <> p -> s' q = s2 q.
 Proof.
-  intros k s E Hc. destruct k as [|[|]]; [| |destruct (c_linepps c) eqn:Hl]; unfold_writer Hd; rewrite ?Hl; cbn [negb andb];
-  rewrite (handle_overwrite_absent e s p _ E); ex; unfold fs_exists; rewrite E, Hc; cbn [orb]; ex;
-  unfold fs_copy, fs_write; rewrite E, Hc; ex; unfold fs_chmod; rewrite ?upd_same; cbn [f_owned]; rewrite ?orb_true_r; ex;
-  match goal with |- context [run_filepps e ?s0 p ?pps] =>
-    let f0 := fresh "f0" in let H := fresh "H" in
-    evar (f0 : fmeta);
-    destruct (run_filepps_full p pps s0 f0) as [s4 [H1 H2]]; subst f0;
-    [apply upd_same | cbn [f_owned set_mode]; apply orb_true_r | rewrite H1; ex ]
-  end;
-  (eexists; eexists; split; [reflexivity|]; split; [exact H2|]; cbn [f_cid f_mode f_owned f_isdir set_mode];
-   repeat split; auto; intros Hn; apply last_mode_irrel; exact Hn).
+  intros k s2 E Al.
+  assert (X : exists s3 f3, (run_act render e c p (body c k) s2 = (s3, Ok)) /\ s3 p = Some f3 /\
+              f_cid f3 = R /\ f_owned f3 = true /\ f_isdir f3 = false /\ forall q, q <> p -> s3 q = s2 q).
+  { unfold body. destruct k as [|[|]]; [| |destruct (c_linepps c)]; cbn [run_act];
+    rewrite (Hind s2 (c_amb c) empty_fs 0); fold R;
+    unfold fs_copy, fs_is_dir, fs_write, fs_write_in; rewrite E, Al; ex;
+    unfold fs_chmod; rewrite ?upd_same; cbn [f_owned]; rewrite ?orb_true_r; ex;
+    (eexists; eexists; split; [reflexivity|]; rewrite ?upd_same; split; [reflexivity|];
+     cbn [f_cid f_owned f_isdir set_mode]; repeat split; auto; intros q Hq; rewrite ?upd_other by exact Hq; reflexivity). }
+  destruct X as [s3 [f3 [H3 [E3 [C3 [O3 [D3 F3]]]]]]]. rewrite H3. ex.
+  destruct (run_filepps_full p (c_filepps c) s3 f3 E3) as [s4 [H4 [E4 F4]]]; [rewrite O3; apply orb_true_r|].
+  rewrite H4. ex. exists s4. split; [reflexivity|]. split.
+  - eexists. split; [exact E4|]. cbn [f_cid f_mode f_owned f_isdir]. repeat split; auto.
+    intros Hn. now apply last_mode_irrel.
+  - intros q Hq. rewrite F4, F3 by exact Hq. reflexivity.
 Qed.
 
-Lemma W_refuse : forall k s f, s p = Some f -> c_allow c = false ->
-  write_item render e c s (p, k) = (s, Err EExists).
+(* ... on a state where p is a regular file the runner has just made writable *)
+Lemma tail_present : forall k s2 f, s2 p = Some f -> f_isdir f = false -> writable e f = true -> superuser e || f_owned f = true ->
+  exists s', bind (run_act render e c p (body c k) s2) (fun s3 => bind (run_filepps e s3 p (c_filepps c)) (fun s4 => (s4, Ok))) = (s', Ok)
+             /\ written s' (f_owned f) /\ forall q, q <> p -> s' q = s2 q.
 Proof.
-  intros k s f E Ha. destruct k as [|[|]]; [| |destruct (c_linepps c) eqn:Hl]; unfold_writer Hd; rewrite ?Hl; cbn [negb andb];
-  rewrite Ha, (handle_overwrite_refuse e s p f E); ex; reflexivity.
+  intros k s2 f E D Wr Hp.
+  assert (X : exists s3 f3, (run_act render e c p (body c k) s2 = (s3, Ok)) /\ s3 p = Some f3 /\
+              f_cid f3 = R /\ f_owned f3 = f_owned f /\ f_isdir f3 = false /\ forall q, q <> p -> s3 q = s2 q).
+  { unfold body. destruct k as [|[|]]; [| |destruct (c_linepps c)]; cbn [run_act];
+    rewrite (Hind s2 (c_amb c) empty_fs 0); fold R;
+    unfold fs_copy, fs_is_dir, fs_write, fs_write_in; rewrite E, D, ?Wr; ex;
+    unfold fs_chmod; rewrite ?upd_same; cbn [f_owned set_cid]; rewrite ?Hp; ex;
+    (eexists; eexists; split; [reflexivity|]; rewrite ?upd_same; split; [reflexivity|];
+     cbn [f_cid f_owned f_isdir set_mode set_cid]; repeat split; auto; intros q Hq; rewrite ?upd_other by exact Hq; reflexivity). }
+  destruct X as [s3 [f3 [H3 [E3 [C3 [O3 [D3 F3]]]]]]]. rewrite H3. ex.
+  destruct (run_filepps_full p (c_filepps c) s3 f3 E3) as [s4 [H4 [E4 F4]]]; [now rewrite O3|].
+  rewrite H4. ex. exists s4. split; [reflexivity|]. split.
+  - eexists. split; [exact E4|]. cbn [f_cid f_mode f_owned f_isdir]. repeat split; auto.
+    intros Hn. now apply last_mode_irrel.
+  - intros q Hq. rewrite F4, F3 by exact Hq. reflexivity.
 Qed.
 
-Lemma W_noperm : forall k s f, s p = Some f -> c_allow c = true -> superuser e || f_owned f = false ->
-  write_item render e c s (p, k) = (s, Err EPermChmod).
+Lemma M_keeps_p : forall s, fst (M s) p = s p.
+Proof. intros s. apply mkdirs_other. apply Hwf. Qed.
+
+Lemma body_blocked : forall k s2, s2 p = None -> allows e s2 (parent_of e p) = false ->
+  run_act render e c p (body c k) s2 = (s2, Err EAccess).
 Proof.
-  intros k s f E Ha Hp. destruct k as [|[|]]; [| |destruct (c_linepps c) eqn:Hl]; unfold_writer Hd; rewrite ?Hl; cbn [negb andb];
-  rewrite Ha, (handle_overwrite_allow e s p f E); unfold fs_chmod; rewrite E, Hp; ex; reflexivity.
+  intros k s2 E Al. unfold body. destruct k as [|[|]]; [| |destruct (c_linepps c)]; cbn [run_act];
+  unfold fs_copy, fs_is_dir, fs_write, fs_write_in; rewrite E, Al; ex; reflexivity.
 Qed.
 
-Lemma W_isdir : forall k s f, s p = Some f -> c_allow c = true -> superuser e || f_owned f = true -> f_isdir f = true ->
-  exists s', write_item render e c s (p, k) = (s', Err EIsDir).
+Lemma W_absent : forall k s, s p = None ->
+  (exists er, W k s = (fst (M s), Err er) /\ er <> EExists) \/
+  (snd (M s) = Ok /\ allows e (fst (M s)) (parent_of e p) = true /\
+   exists s', W k s = (s', Ok) /\ written s' true /\ forall q, q <> p -> s' q = fst (M s) q).
 Proof.
-  intros k s f E Ha Hp Hdir. destruct k as [|[|]]; [| |destruct (c_linepps c) eqn:Hl]; unfold_writer Hd; rewrite ?Hl; cbn [negb andb];
-  rewrite Ha, (handle_overwrite_allow e s p f E); unfold fs_chmod at 1; rewrite E, Hp; ex;
-  unfold fs_exists; rewrite upd_same; cbn [orb]; ex;
-  unfold fs_copy, fs_write; rewrite upd_same; cbn [f_isdir set_mode]; rewrite Hdir; ex; eexists; reflexivity.
+  intros k s E. open_writer. rewrite (handle_overwrite_absent e s p _ E). ex.
+  pose proof (M_keeps_p s) as Kp. pose proof (mkdirs_err_kind e (ancestors e p) None s) as Ek.
+  destruct (M s) as [s2 [|er]] eqn:EM; cbn [fst snd] in *; ex.
+  - rewrite E in Kp. destruct (allows e s2 (parent_of e p)) eqn:Al.
+    + right. split; [reflexivity|]. split; [reflexivity|]. now apply tail_absent.
+    + left. rewrite (body_blocked k s2 Kp Al). ex. exists EAccess. split; [reflexivity | discriminate].
+  - left. exists er. split; [reflexivity|]. destruct (Ek er eq_refl) as [->| ->]; discriminate.
 Qed.
 
-Lemma W_overwrite : forall k s f, s p = Some f -> c_allow c = true -> superuser e || f_owned f = true -> f_isdir f = false ->
-  exists s' f', write_item render e c s (p, k) = (s', Ok) /\ s' p = Some f' /\ f_cid f' = R /\
-                f_owned f' = f_owned f /\ f_isdir f' = false /\
-                (c_filepps c <> [] -> f_mode f' = last_mode (c_filepps c) 0).
+Lemma W_refuse_any : forall k s f, s p = Some f -> c_allow c = false -> exists er, W k s = (s, Err er).
 Proof.
-  intros k s f E Ha Hp Hdir. destruct k as [|[|]]; [| |destruct (c_linepps c) eqn:Hl]; unfold_writer Hd; rewrite ?Hl; cbn [negb andb];
-  rewrite Ha, (handle_overwrite_allow e s p f E); unfold fs_chmod at 1; rewrite E, Hp; ex;
-  unfold fs_exists; rewrite upd_same; cbn [orb]; ex;
-  unfold fs_copy, fs_write; rewrite upd_same; cbn [f_isdir set_mode]; rewrite Hdir, (writable_after_gate f (f_mode f) Hp); ex;
-  unfold fs_chmod; rewrite ?upd_same; cbn [f_owned set_cid set_mode]; rewrite ?Hp; ex;
-  match goal with |- context [run_filepps e ?s0 p ?pps] =>
-    let f0 := fresh "f0" in
-    evar (f0 : fmeta);
-    destruct (run_filepps_full p pps s0 f0) as [s4 [H1 H2]]; subst f0;
-    [apply upd_same | cbn [f_owned set_mode set_cid]; exact Hp | rewrite H1; ex ]
-  end;
-  (eexists; eexists; split; [reflexivity|]; split; [exact H2|]; cbn [f_cid f_mode f_owned f_isdir set_mode set_cid];
-   repeat split; auto; intros Hn; apply last_mode_irrel; exact Hn).
+  intros k s f E Ha. open_writer. rewrite Ha. destruct (handle_overwrite_refuse_any e s p f E) as [er H].
+  rewrite H. ex. eauto.
 Qed.
 
-Lemma W_ok : forall k s s', write_item render e c s (p, k) = (s', Ok) ->
-  exists f', s' p = Some f' /\ f_cid f' = R /\ (c_filepps c <> [] -> f_mode f' = last_mode (c_filepps c) 0).
+Lemma W_refuse : forall k s f, s p = Some f -> f_isdir f = false -> c_allow c = false -> W k s = (s, Err EExists).
+Proof. intros k s f E D Ha. open_writer. rewrite Ha, (handle_overwrite_refuse e s p f E D). ex. reflexivity. Qed.
+
+Lemma W_noperm : forall k s f, s p = Some f -> f_isdir f = false -> c_allow c = true -> superuser e || f_owned f = false ->
+  W k s = (s, Err EPermChmod).
 Proof.
-  intros k s s' H. destruct (s p) as [f|] eqn:E.
-  - destruct (c_allow c) eqn:Ha.
-    + destruct (superuser e || f_owned f) eqn:Hp.
-      * destruct (f_isdir f) eqn:Hdir.
-        -- destruct (W_isdir k s f E Ha Hp Hdir) as [s2 H2]. congruence.
-        -- destruct (W_overwrite k s f E Ha Hp Hdir) as [s2 [f2 [H2 [E2 [C2 [_ [_ M2]]]]]]].
-           rewrite H2 in H. injection H as <-. eauto.
-      * rewrite (W_noperm k s f E Ha Hp) in H. discriminate.
-    + rewrite (W_refuse k s f E Ha) in H. discriminate.
-  - destruct (can_create e p) eqn:Hc.
-    + destruct (W_absent_create k s E Hc) as [s2 [f2 [H2 [E2 [C2 [_ [_ M2]]]]]]].
-      rewrite H2 in H. injection H as <-. eauto.
-    + rewrite (W_absent_nocreate k s E Hc) in H. discriminate.
+  intros k s f E D Ha Hp. open_writer. rewrite Ha, (handle_overwrite_allow e s p f E D). unfold fs_chmod. rewrite E, Hp. ex. reflexivity.
+Qed.
+
+Definition gated (s : fs) (f : fmeta) : fs := upd s p (set_mode f (N.land (N.lor (f_mode f) 144) 4095)).
+
+Lemma W_overwrite : forall k s f, s p = Some f -> f_isdir f = false -> c_allow c = true -> superuser e || f_owned f = true ->
+  (exists er, W k s = (fst (M (gated s f)), Err er) /\ snd (M (gated s f)) = Err er) \/
+  (snd (M (gated s f)) = Ok /\
+   exists s', W k s = (s', Ok) /\ written s' (f_owned f) /\ forall q, q <> p -> s' q = fst (M (gated s f)) q).
+Proof.
+  intros k s f E D Ha Hp. open_writer. rewrite Ha, (handle_overwrite_allow e s p f E D). unfold fs_chmod. rewrite E, Hp. ex.
+  fold (gated s f). pose proof (M_keeps_p (gated s f)) as Kp. unfold gated at 2 in Kp. rewrite upd_same in Kp.
+  destruct (M (gated s f)) as [s2 [|er]] eqn:EM; cbn [fst snd] in *; ex.
+  - right. split; [reflexivity|].
+    destruct (tail_present k s2 _ Kp) as [s' [H1 [H2 H3]]]; cbn [f_isdir f_owned set_mode]; auto.
+    + now apply writable_after_gate.
+    + exists s'. cbn [f_owned set_mode] in H2. auto.
+  - left. eauto.
+Qed.
+
+Lemma W_dir_nocopy : forall k s f, s p = Some f -> f_isdir f = true -> body c k = AOpenWrite -> snd (W k s) <> Ok.
+Proof.
+  intros k s f E D Hb. destruct (c_allow c) eqn:Ha.
+  - open_writer. rewrite Ha, Hb. destruct (handle_overwrite_dir e s p f E D) as [H|H]; rewrite H.
+    + unfold fs_chmod. rewrite E. destruct (superuser e || f_owned f); ex; [|cbn; discriminate].
+      set (s1 := upd s p (set_mode f (N.land (N.lor (f_mode f) 144) 4095))).
+      pose proof (M_keeps_p s1) as Kp. unfold s1 at 2 in Kp. rewrite upd_same in Kp.
+      destruct (M s1) as [s2 [|er]]; cbn [fst] in Kp; ex; [|cbn; discriminate].
+      cbn [run_act]. unfold fs_write, fs_write_in. rewrite Kp. cbn [f_isdir set_mode]. rewrite D. ex. cbn; discriminate.
+    + ex. cbn; discriminate.
+  - destruct (W_refuse_any k s f E Ha) as [er H]. rewrite H. cbn; discriminate.
+Qed.
+
+(* a successful write leaves the canonical file -- unless shutil.copy met a directory (the trigger) *)
+Lemma W_ok : forall k s s', W k s = (s', Ok) -> (is_copy (body c k) = true -> fs_is_dir s p = false) ->
+  exists own, written s' own.
+Proof.
+  intros k s s' H Htr. destruct (s p) as [f|] eqn:E.
+  - destruct (f_isdir f) eqn:D.
+    + exfalso. destruct (is_copy (body c k)) eqn:Ic.
+      * specialize (Htr eq_refl). unfold fs_is_dir in Htr. rewrite E in Htr. congruence.
+      * apply (W_dir_nocopy k s f E D); [|now rewrite H].
+        unfold body in *. destruct k as [|[|]]; try reflexivity. destruct (c_linepps c); [reflexivity | discriminate].
+    + destruct (c_allow c) eqn:Ha.
+      * destruct (superuser e || f_owned f) eqn:Hp.
+        -- destruct (W_overwrite k s f E D Ha Hp) as [[er [H1 _]]|[_ [s2 [H1 [H2 _]]]]]; [congruence|].
+           rewrite H1 in H. injection H as <-. eauto.
+        -- rewrite (W_noperm k s f E D Ha Hp) in H. discriminate.
+      * rewrite (W_refuse k s f E D Ha) in H. discriminate.
+  - destruct (W_absent k s E) as [[er [H1 _]]|[_ [_ [s2 [H1 [H2 _]]]]]]; [congruence|].
+    rewrite H1 in H. injection H as <-. eauto.
+Qed.
+
+(* with the chain ready, writing succeeds *)
+Lemma W_total : forall k s, c_allow c = true -> ready e s p = true ->
+  (forall f, s p = Some f -> superuser e || f_owned f = true) ->
+  exists s' own, W k s = (s', Ok) /\ written s' own.
+Proof.
+  intros k s Ha Hr Hch. unfold ready in Hr. apply andb_true_iff in Hr. destruct Hr as [R1 R2].
+  destruct (snd (M s)) eqn:EM; [|discriminate]. destruct (s p) as [f|] eqn:E.
+  - apply negb_true_iff in R2.
+    destruct (W_overwrite k s f E R2 Ha (Hch f eq_refl)) as [[er [_ H1]]|[_ [s2 [H1 [H2 _]]]]]; [|eauto].
+    exfalso. destruct (mkdirs_mono e (ancestors e p) None s (gated s f)) as [X _]; auto; [|congruence].
+    intros a Ha'. left. unfold gated. apply upd_other. intros ->. exact (Hwf p Ha').
+  - destruct (W_absent k s E) as [[er [H1 H2]]|[_ [_ [s2 [H1 [H2 _]]]]]]; [|eauto].
+    exfalso. unfold write_item in H1. cbn [fst snd] in H1. rewrite (flat_acts_shape c _ Hd) in H1. cbn [run_acts run_act] in H1.
+    rewrite (handle_overwrite_absent e s p _ E) in H1. rewrite bind_pair_ok in H1.
+    pose proof (M_keeps_p s) as Kp. rewrite E in Kp.
+    destruct (M s) as [s2 r2]; cbn [fst snd] in *. subst r2. rewrite bind_pair_ok in H1.
+    destruct (tail_absent k s2 Kp R2) as [s3 [H3 _]]. rewrite H3 in H1. discriminate.
 Qed.
 End W.
 
 Section Dry.
-Variable render : N -> path -> N.
+Variable render : fs -> N -> N -> path -> N.
 Variable e : env.
 Lemma W_dry : forall c it s, c_dryrun c = true -> write_item render e c s it = (s, Ok).
-Proof.
-  intros c [p k] s Hd. destruct k as [|[|]];
-  unfold write_item, skel_of_kind, generate_type_skel, generate_header_skel, copy_header_skel;
-  cbn [fst snd run_skel1 run_act1 forallb guard_holds]; rewrite ?Hd; cbn [negb andb]; reflexivity.
-Qed.
+Proof. intros c [p k] s Hd. unfold write_item. now rewrite flat_acts_dry. Qed.
 End Dry.
 
 (* ------------------------------------------------------------------------------------------ *)
 (* a whole run                                                                                  *)
 (* ------------------------------------------------------------------------------------------ *)
 Section Run.
-Variable render : N -> path -> N.
+Variable render : fs -> N -> N -> path -> N.
 Variable e : env.
+Hypothesis Hind : render_independent render.
+Hypothesis Hwf : env_wf e.
 
 Notation WL c := (run_list (write_item render e c)).
+Notation Rn c p := (render empty_fs 0 (c_class c) p).
 
-Lemma item_frame : forall c it s q, q <> fst it -> fst (write_item render e c s it) q = s q.
+Definition no_dir_copy (c : cfg) (s : fs) : Prop := forall p, In p (copy_targets c) -> fs_is_dir s p = false.
+Definition copy_not_anc (c : cfg) : Prop := forall p, In p (copy_targets c) -> ~ anc e c p.
+(* what a configuration needs as a directory it (or another one) never writes as a file, and vice versa *)
+Definition compatible (c c' : cfg) : Prop :=
+  (forall q, anc e c q -> ~ touch e c' q) /\ (forall q, anc e c' q -> ~ touch e c q).
+
+Lemma no_dir_copy_bool : forall c s, dir_at_copy_target c s = false -> no_dir_copy c s.
 Proof.
-  intros c it s q H. apply (write_item_rel render e (fun x => x = fst it) c it eq_refl s q). congruence.
+  intros c s H p Hp. unfold dir_at_copy_target in H. destruct (fs_is_dir s p) eqn:D; [|reflexivity].
+  assert (X : existsb (fun p => fs_is_dir s p) (copy_targets c) = true) by (apply existsb_exists; eauto). congruence.
 Qed.
 
-Lemma list_frame : forall c l s q, ~ In q (map fst l) -> fst (WL c s l) q = s q.
-Proof. intros c l s q H. now apply (items_rel render e c l s q). Qed.
+Lemma compatible_copy_not_anc : forall c, compatible c c -> copy_not_anc c.
+Proof.
+  intros c [H _] p Hp Ha. apply (H p Ha). left. unfold copy_targets in Hp. unfold targets.
+  apply in_map_iff in Hp. destruct Hp as [it [<- Hit]]. apply filter_In in Hit. apply in_map. tauto.
+Qed.
 
-Lemma list_canonical : forall c, c_dryrun c = false -> forall l s s' p,
-  WL c s l = (s', Ok) -> In p (map fst l) ->
-  exists f', s' p = Some f' /\ f_cid f' = render (c_class c) p /\
+Lemma no_dir_copy_rel : forall c T s s', rel e T (anc e c) s s' -> copy_not_anc c -> no_dir_copy c s -> no_dir_copy c s'.
+Proof.
+  intros c T s s' R Hn H p Hp. specialize (H p Hp). unfold fs_is_dir in *. destruct (R p) as [_ [M C]].
+  destruct (s' p) as [f'|] eqn:E'; [|reflexivity]. destruct (s p) as [f|] eqn:E; cbn in M.
+  - destruct M as [_ M]. congruence.
+  - destruct (f_isdir f') eqn:D; [|reflexivity]. exfalso. apply (Hn p Hp). now apply (C eq_refl f').
+Qed.
+
+Lemma mkdirs_keeps : forall l prev s q, s q <> None -> fst (mkdirs e prev l s) q = s q.
+Proof.
+  intros l prev s q H. destruct (mkdirs_rel e (fun _ => False) (fun a => In a l) l prev (fun a Ha => Ha) s q) as [X _].
+  destruct (X (fun f => f)) as [Y|[_ [Y _]]]; [exact Y | congruence].
+Qed.
+
+(* a successful write of p (not through a directory) changes no other existing entry *)
+Lemma W_frame_ok : forall c p k s s', c_dryrun c = false -> write_item render e c s (p, k) = (s', Ok) ->
+  (is_copy (body c k) = true -> fs_is_dir s p = false) ->
+  forall q, q <> p -> s q <> None -> s' q = s q.
+Proof.
+  intros c p k s s' Hd H Htr q Hq Hs. destruct (s p) as [f|] eqn:E.
+  - destruct (f_isdir f) eqn:D.
+    + exfalso. destruct (is_copy (body c k)) eqn:Ic.
+      * specialize (Htr eq_refl). unfold fs_is_dir in Htr. rewrite E in Htr. congruence.
+      * apply (W_dir_nocopy render e Hwf c p Hd k s f E D); [|now rewrite H].
+        unfold body in *. destruct k as [|[|]]; try reflexivity. destruct (c_linepps c); [reflexivity | discriminate].
+    + destruct (c_allow c) eqn:Ha.
+      * destruct (superuser e || f_owned f) eqn:Hp.
+        -- destruct (W_overwrite render e Hind Hwf c p Hd k s f E D Ha Hp) as [[er [H1 _]]|[_ [s2 [H1 [_ H3]]]]]; [congruence|].
+           rewrite H1 in H. injection H as <-. rewrite H3 by exact Hq.
+           rewrite mkdirs_keeps; unfold gated; rewrite upd_other by exact Hq; auto.
+        -- rewrite (W_noperm render e c p Hd k s f E D Ha Hp) in H. discriminate.
+      * rewrite (W_refuse render e c p Hd k s f E D Ha) in H. discriminate.
+  - destruct (W_absent render e Hind Hwf c p Hd k s E) as [[er [H1 _]]|[_ [_ [s2 [H1 [_ H3]]]]]]; [congruence|].
+    rewrite H1 in H. injection H as <-. rewrite H3 by exact Hq. now apply mkdirs_keeps.
+Qed.
+
+Lemma copy_target_in : forall c it, In it (items c) -> c_dryrun c = false -> is_copy (body c (snd it)) = true -> In (fst it) (copy_targets c).
+Proof.
+  intros c it H Hd Hc. unfold copy_targets. apply in_map. apply filter_In. split; [exact H|]. now rewrite copies_body.
+Qed.
+
+Lemma list_frame_ok : forall c, c_dryrun c = false -> copy_not_anc c -> forall l s s',
+  (forall it, In it l -> In it (items c)) -> no_dir_copy c s -> WL c s l = (s', Ok) ->
+  forall q, ~ In q (map fst l) -> s q <> None -> s' q = s q.
+Proof.
+  intros c Hd Hn l. induction l as [|[p0 k] r IH]; intros s s' Hsub Hnd H q Hq Hs; cbn [run_list map fst] in *.
+  - injection H as <-. reflexivity.
+  - apply bind_ok in H. destruct H as [s1 [H1 H2]].
+    assert (Hit : In (p0, k) (items c)) by (apply Hsub; now left).
+    assert (E1 : s1 q = s q).
+    { apply (W_frame_ok c p0 k s s1 Hd H1);
+        [intros Hc; apply Hnd; now apply (copy_target_in c (p0, k)) | intros ->; apply Hq; now left | exact Hs]. }
+    rewrite <- E1. apply (IH s1 s').
+    + intros it Hi. apply Hsub. now right.
+    + eapply no_dir_copy_rel; [|exact Hn|exact Hnd].
+      replace s1 with (fst (write_item render e c s (p0, k))) by now rewrite H1. now apply write_item_rel.
+    + exact H2.
+    + intros X. apply Hq. now right.
+    + congruence.
+Qed.
+
+Lemma list_canonical : forall c, c_dryrun c = false -> copy_not_anc c -> forall l s s' p,
+  (forall it, In it l -> In it (items c)) -> no_dir_copy c s -> WL c s l = (s', Ok) -> In p (map fst l) ->
+  exists f', s' p = Some f' /\ f_cid f' = Rn c p /\ f_isdir f' = false /\
              (c_filepps c <> [] -> f_mode f' = last_mode (c_filepps c) 0).
 Proof.
-  intros c Hd l. induction l as [|[p0 k] r IH]; intros s s' p H Hin; cbn [run_list map fst] in *.
-  - contradiction.
-  - apply bind_ok in H. destruct H as [s1 [H1 H2]].
-    destruct (in_dec N.eq_dec p (map fst r)) as [Hr|Hr].
-    + eapply IH; eauto.
-    + destruct Hin as [<-|Hin]; [|contradiction]. cbn [fst] in *.
-      destruct (W_ok render e c p0 Hd k s s1 H1) as [f' [E [C M]]].
-      exists f'. split; [|split; assumption].
-      rewrite <- E. replace s' with (fst (WL c s1 r)) by now rewrite H2.
-      now apply list_frame.
+  intros c Hd Hn l. induction l as [|[p0 k] r IH]; intros s s' p Hsub Hnd H Hin; cbn [run_list map fst] in *; [contradiction|].
+  apply bind_ok in H. destruct H as [s1 [H1 H2]].
+  assert (Hit : In (p0, k) (items c)) by (apply Hsub; now left).
+  assert (Hnd1 : no_dir_copy c s1).
+  { eapply no_dir_copy_rel; [|exact Hn|exact Hnd].
+    replace s1 with (fst (write_item render e c s (p0, k))) by now rewrite H1. now apply write_item_rel. }
+  assert (Hsub' : forall it, In it r -> In it (items c)) by (intros it Hi; apply Hsub; now right).
+  destruct (in_dec N.eq_dec p (map fst r)) as [Hr|Hr].
+  - eapply IH; eauto.
+  - destruct Hin as [<-|Hin]; [|contradiction].
+    destruct (W_ok render e Hind Hwf c p0 Hd k s s1 H1) as [own [f' [E [C [_ [D M]]]]]].
+    { intros Hc. apply Hnd. now apply (copy_target_in c (p0, k)). }
+    exists f'. rewrite <- E. split; [|auto].
+    eapply list_frame_ok; eauto. congruence.
 Qed.
 
 Lemma list_dry : forall c, c_dryrun c = true -> forall l s, WL c s l = (s, Ok).
@@ -454,148 +802,158 @@ Lemma list_noov_keep : forall c, c_dryrun c = false -> c_allow c = false -> fora
 Proof.
   intros c Hd Ha l. induction l as [|[p0 k] r IH]; intros s q Hq; cbn [run_list]; [reflexivity|].
   destruct (s p0) as [f|] eqn:E.
-  - rewrite (W_refuse render e c p0 Hd k s f E Ha). reflexivity.
+  - destruct (W_refuse_any render e c p0 Hd k s f E Ha) as [er H]. rewrite H. reflexivity.
   - assert (Hne : q <> p0) by congruence.
-    pose proof (item_frame c (p0, k) s q Hne) as F.
+    assert (F : fst (write_item render e c s (p0, k)) q = s q).
+    { destruct (W_absent render e Hind Hwf c p0 Hd k s E) as [[er [H1 _]]|[_ [_ [s2 [H1 [_ H3]]]]]]; rewrite H1; cbn [fst].
+      - now apply mkdirs_keeps.
+      - rewrite H3 by exact Hne. now apply mkdirs_keeps. }
     destruct (write_item render e c s (p0, k)) as [s1 [|er]]; cbn [fst] in F.
     + rewrite bind_pair_ok. rewrite IH by congruence. exact F.
     + rewrite bind_pair_err. exact F.
 Qed.
 
-Lemma list_noov_conflict : forall c, c_dryrun c = false -> c_allow c = false -> forall l s,
-  (forall p, In p (map fst l) -> can_create e p = true) ->
-  (exists p, In p (map fst l) /\ s p <> None) -> snd (WL c s l) = Err EExists.
-Proof.
-  intros c Hd Ha l. induction l as [|[p0 k] r IH]; intros s Hc [p [Hin Hp]]; cbn [run_list map fst] in *; [contradiction|].
-  destruct (s p0) as [f|] eqn:E.
-  - rewrite (W_refuse render e c p0 Hd k s f E Ha). reflexivity.
-  - destruct Hin as [->|Hin]; [congruence|].
-    destruct (W_absent_create render e c p0 Hd k s E (Hc p0 (or_introl eq_refl))) as [s1 [f1 [H1 _]]].
-    rewrite H1, bind_pair_ok. apply IH.
-    + intros x Hx. apply Hc. now right.
-    + exists p. split; [exact Hin|].
-      replace s1 with (fst (write_item render e c s (p0, k))) by now rewrite H1.
-      rewrite item_frame by (cbn [fst]; congruence). exact Hp.
-Qed.
-
-Lemma list_noov_clean : forall c, c_dryrun c = false -> forall l s,
-  NoDup (map fst l) ->
-  (forall p, In p (map fst l) -> can_create e p = true) ->
-  (forall p, In p (map fst l) -> s p = None) -> snd (WL c s l) = Ok.
-Proof.
-  intros c Hd l. induction l as [|[p0 k] r IH]; intros s Hnd Hc Hn; cbn [run_list map fst] in *; [reflexivity|].
-  inversion Hnd as [|? ? Hnot Hnd']; subst.
-  destruct (W_absent_create render e c p0 Hd k s (Hn p0 (or_introl eq_refl)) (Hc p0 (or_introl eq_refl))) as [s1 [f1 [H1 _]]].
-  rewrite H1, bind_pair_ok. apply IH.
-  - exact Hnd'.
-  - intros p Hp. apply Hc. now right.
-  - intros p Hp. replace s1 with (fst (write_item render e c s (p0, k))) by now rewrite H1.
-    rewrite item_frame; [apply Hn; now right | cbn [fst]; intros ->; contradiction].
-Qed.
-
-Lemma list_noov_exists_pre : forall c, c_dryrun c = false -> c_allow c = false -> forall l s,
-  NoDup (map fst l) -> snd (WL c s l) = Err EExists -> exists p, In p (map fst l) /\ s p <> None.
-Proof.
-  intros c Hd Ha l. induction l as [|[p0 k] r IH]; intros s Hnd H; cbn [run_list map fst] in *; [discriminate|].
-  inversion Hnd as [|? ? Hnot Hnd']; subst.
-  destruct (s p0) as [f|] eqn:E.
-  - exists p0. split; [now left | congruence].
-  - destruct (can_create e p0) eqn:Hc.
-    + destruct (W_absent_create render e c p0 Hd k s E Hc) as [s1 [f1 [H1 _]]].
-      rewrite H1, bind_pair_ok in H. destruct (IH s1 Hnd' H) as [p [Hin Hp]].
-      exists p. split; [now right|].
-      replace s1 with (fst (write_item render e c s (p0, k))) in Hp by now rewrite H1.
-      rewrite item_frame in Hp; [exact Hp | cbn [fst]; intros ->; contradiction].
-    + rewrite (W_absent_nocreate render e c p0 Hd k s E Hc), bind_pair_err in H. discriminate.
-Qed.
-
 Lemma list_noov_conflict_fails : forall c, c_dryrun c = false -> c_allow c = false -> forall l s,
+  (forall it, In it l -> In it (items c)) ->
   (exists p, In p (map fst l) /\ s p <> None) -> snd (WL c s l) <> Ok.
 Proof.
-  intros c Hd Ha l. induction l as [|[p0 k] r IH]; intros s [p [Hin Hp]]; cbn [run_list map fst] in *; [contradiction|].
+  intros c Hd Ha l. induction l as [|[p0 k] r IH]; intros s Hsub [p [Hin Hp]]; cbn [run_list map fst] in *; [contradiction|].
   destruct (s p0) as [f|] eqn:E.
-  - rewrite (W_refuse render e c p0 Hd k s f E Ha). discriminate.
+  - destruct (W_refuse_any render e c p0 Hd k s f E Ha) as [er H]. rewrite H. discriminate.
   - destruct Hin as [->|Hin]; [congruence|].
-    pose proof (item_frame c (p0, k) s p) as F. cbn [fst] in F.
-    destruct (write_item render e c s (p0, k)) as [s1 [|er]]; cbn [fst] in F.
-    + rewrite bind_pair_ok. apply IH. exists p. split; [exact Hin|]. rewrite F; congruence.
+    assert (Hit : In (p0, k) (items c)) by (apply Hsub; now left).
+    pose proof (write_item_rel render e c (p0, k) Hit s p) as [_ [Mk _]]. cbn [fst] in Mk.
+    destruct (write_item render e c s (p0, k)) as [s1 [|er]]; cbn [fst] in Mk.
+    + rewrite bind_pair_ok. apply IH; [intros it Hi; apply Hsub; now right|]. exists p. split; [exact Hin|].
+      destruct (s p); [|congruence]. destruct (s1 p); [congruence | contradiction].
     + rewrite bind_pair_err. discriminate.
 Qed.
 
-(* ---- overwriting always works on files the runner may chmod ---- *)
-Definition target_ready (s : fs) (p : path) : Prop :=
-  match s p with None => can_create e p = true | Some f => f_isdir f = false end.
-
-Lemma list_total : forall c, c_dryrun c = false -> c_allow c = true -> forall l s,
-  chmodable e s -> (forall p, In p (map fst l) -> target_ready s p) -> snd (WL c s l) = Ok.
+(* ---- overwriting always works when the chains are ready and the entries are the runner's ---- *)
+Lemma list_total : forall c, c_dryrun c = false -> c_allow c = true -> compatible c c -> forall l s,
+  (forall it, In it l -> In it (items c)) ->
+  chmodable e s -> (forall p, In p (map fst l) -> ready e s p = true) -> snd (WL c s l) = Ok.
 Proof.
-  intros c Hd Ha l. induction l as [|[p0 k] r IH]; intros s Hch Hr; cbn [run_list map fst] in *; [reflexivity|].
-  assert (Hstep : exists s1 f1, write_item render e c s (p0, k) = (s1, Ok) /\ s1 p0 = Some f1 /\ f_isdir f1 = false).
-  { pose proof (Hr p0 (or_introl eq_refl)) as R0. unfold target_ready in R0. destruct (s p0) as [f|] eqn:E.
-    - destruct (W_overwrite render e c p0 Hd k s f E Ha (Hch p0 f E) R0) as [s1 [f1 [H1 [E1 [_ [_ [D1 _]]]]]]]. eauto.
-    - destruct (W_absent_create render e c p0 Hd k s E R0) as [s1 [f1 [H1 [E1 [_ [_ [D1 _]]]]]]]. eauto. }
-  destruct Hstep as [s1 [f1 [H1 [E1 D1]]]]. rewrite H1, bind_pair_ok.
-  assert (Rl : rel (fun x => x = p0) s s1).
-  { replace s1 with (fst (write_item render e c s (p0, k))) by now rewrite H1.
-    apply (write_item_rel render e (fun x => x = p0) c (p0, k) eq_refl s). }
+  intros c Hd Ha Hc l. induction l as [|[p0 k] r IH]; intros s Hsub Hch Hr; cbn [run_list map fst] in *; [reflexivity|].
+  assert (Hit : In (p0, k) (items c)) by (apply Hsub; now left).
+  destruct (W_total render e Hind Hwf c p0 Hd k s Ha (Hr p0 (or_introl eq_refl)) (Hch p0)) as [s1 [own [H1 _]]].
+  rewrite H1, bind_pair_ok.
+  assert (Rl : rel e (touch e c) (anc e c) s s1).
+  { replace s1 with (fst (write_item render e c s (p0, k))) by now rewrite H1. now apply write_item_rel. }
   apply IH.
+  - intros it Hi. apply Hsub. now right.
   - eapply rel_chmodable; eauto.
-  - intros p Hp. unfold target_ready. destruct (N.eq_dec p p0) as [->|Hne].
-    + now rewrite E1.
-    + destruct (Rl p) as [F _]. rewrite F by exact Hne. apply Hr. now right.
+  - intros p Hp. assert (Hpi : exists it, In it (items c) /\ fst it = p).
+    { apply in_map_iff in Hp. destruct Hp as [it [<- Hi]]. exists it. split; [apply Hsub; now right | reflexivity]. }
+    destruct Hpi as [it [Hi <-]].
+    apply (ready_preserved e (touch e c) (anc e c) s s1 (fst it) Rl).
+    + intros q Hq. apply (proj1 Hc). eapply item_anc; eauto.
+    + intros Ha'. apply (proj1 Hc _ Ha'). now apply item_touch.
+    + apply Hr. right. exact Hp.
 Qed.
-
 End Run.
 
 (* ------------------------------------------------------------------------------------------ *)
 (* the statements of C12                                                                        *)
 (* ------------------------------------------------------------------------------------------ *)
 Section Final.
-Variable render : N -> path -> N.
+Variable render : fs -> N -> N -> path -> N.
 Variable e : env.
+Hypothesis Hind : render_independent render.
+Hypothesis Hwf : env_wf e.
 
 Notation STEP := (step render e).
 Notation HIST := (history render e).
 
-Lemma targets_items : forall c, targets c = map fst (items c).
-Proof. reflexivity. Qed.
+Lemma sub_refl : forall c it, In it (items c) -> In it (items c).
+Proof. auto. Qed.
 
-(* any state -- in particular the state after any history *)
+(* any state -- in particular the state after any history of runs and crashes *)
 Lemma canonical_any_state : forall s c p,
-  c_dryrun c = false -> c_filepps c <> [] -> snd (STEP s c) = Ok -> In p (targets c) ->
+  c_dryrun c = false -> c_filepps c <> [] -> copy_not_anc e c -> dir_at_copy_target c s = false ->
+  snd (STEP s c) = Ok -> In p (targets c) ->
   obs (fst (STEP s c) p) = canonical render e c p.
 Proof.
-  intros s c p Hd Hpp Hok Hin. rewrite step_flat in *.
+  intros s c p Hd Hpp Hn Htr Hok Hin. rewrite step_flat in *.
   destruct (run_list (write_item render e c) s (items c)) as [s' r] eqn:H. cbn [fst snd] in *. subst r.
-  destruct (list_canonical render e c Hd (items c) s s' p H Hin) as [f' [E [C M]]].
+  destruct (list_canonical render e Hind Hwf c Hd Hn (items c) s s' p (sub_refl c) (no_dir_copy_bool c s Htr) H Hin)
+    as [f' [E [C [_ M]]]].
   rewrite E. unfold obs, canonical. rewrite C, (M Hpp). f_equal. f_equal. now apply last_mode_irrel.
 Qed.
 
-Theorem regen_canonical : forall h s0 c p,
-  c_dryrun c = false -> c_filepps c <> [] ->
-  snd (STEP (HIST s0 h) c) = Ok -> In p (targets c) ->
-  obs (fst (STEP (HIST s0 h) c) p) = canonical render e c p.
-Proof. intros h s0 c p. apply canonical_any_state. Qed.
-
-Theorem regen_content_canonical : forall h s0 c p,
-  c_dryrun c = false -> snd (STEP (HIST s0 h) c) = Ok -> In p (targets c) ->
-  exists f, fst (STEP (HIST s0 h) c) p = Some f /\ f_cid f = render (c_class c) p.
+Lemma content_any_state : forall s c p,
+  c_dryrun c = false -> copy_not_anc e c -> dir_at_copy_target c s = false ->
+  snd (STEP s c) = Ok -> In p (targets c) ->
+  exists f, fst (STEP s c) p = Some f /\ f_isdir f = false /\ f_cid f = render empty_fs 0 (c_class c) p.
 Proof.
-  intros h s0 c p Hd Hok Hin. rewrite step_flat in *.
-  destruct (run_list (write_item render e c) (HIST s0 h) (items c)) as [s' r] eqn:H. cbn [fst snd] in *. subst r.
-  destruct (list_canonical render e c Hd (items c) _ s' p H Hin) as [f' [E [C _]]]. eauto.
+  intros s c p Hd Hn Htr Hok Hin. rewrite step_flat in *.
+  destruct (run_list (write_item render e c) s (items c)) as [s' r] eqn:H. cbn [fst snd] in *. subst r.
+  destruct (list_canonical render e Hind Hwf c Hd Hn (items c) s s' p (sub_refl c) (no_dir_copy_bool c s Htr) H Hin)
+    as [f' [E [C [D _]]]]. eauto.
 Qed.
 
+Lemma empty_no_dir : forall c, dir_at_copy_target c empty_fs = false.
+Proof. intros c. unfold dir_at_copy_target. induction (copy_targets c); cbn; auto. Qed.
+
 Theorem regen_equals_fresh : forall h s0 c p,
-  c_dryrun c = false -> c_filepps c <> [] ->
+  c_dryrun c = false -> c_filepps c <> [] -> copy_not_anc e c -> dir_at_copy_target c (HIST s0 h) = false ->
   snd (STEP (HIST s0 h) c) = Ok -> snd (STEP empty_fs c) = Ok -> In p (targets c) ->
   obs (fst (STEP (HIST s0 h) c) p) = obs (fst (STEP empty_fs c) p).
 Proof.
-  intros h s0 c p Hd Hpp H1 H2 Hin.
-  rewrite (canonical_any_state (HIST s0 h) c p Hd Hpp H1 Hin).
-  now rewrite (canonical_any_state empty_fs c p Hd Hpp H2 Hin).
+  intros h s0 c p Hd Hpp Hn Htr H1 H2 Hin.
+  rewrite (canonical_any_state (HIST s0 h) c p Hd Hpp Hn Htr H1 Hin).
+  now rewrite (canonical_any_state empty_fs c p Hd Hpp Hn (empty_no_dir c) H2 Hin).
 Qed.
 
+(* ---- footprint ---- *)
+Theorem written_in_footprint : forall s c q, fst (STEP s c) q <> s q ->
+  In q (targets c) \/ In q (child_targets e c) \/
+  (In q (dir_targets e c) /\ s q = None /\ fst (STEP s c) q = Some (new_dir e)).
+Proof.
+  intros s c q H. destruct (in_dec N.eq_dec q (targets c)) as [X|X]; [now left|].
+  destruct (in_dec N.eq_dec q (child_targets e c)) as [Y|Y]; [right; now left|].
+  right; right. destruct (step_rel render e c s q) as [F _].
+  destruct F as [F|F]; [intros [Z|Z]; contradiction | contradiction | exact F].
+Qed.
+
+Theorem foreign_untouched : forall s c q,
+  ~ In q (targets c) -> ~ In q (child_targets e c) -> (s q <> None \/ ~ In q (dir_targets e c)) ->
+  fst (STEP s c) q = s q.
+Proof.
+  intros s c q X Y Z. destruct (step_rel render e c s q) as [F _].
+  destruct F as [F|[A [N _]]]; [intros [W|W]; contradiction | exact F |]. destruct Z; [congruence | contradiction].
+Qed.
+
+Theorem foreign_event : forall s ev q,
+  ~ In q (targets (ev_cfg ev)) -> ~ In q (child_targets e (ev_cfg ev)) ->
+  (s q <> None \/ ~ In q (dir_targets e (ev_cfg ev))) -> apply_event render e s ev q = s q.
+Proof.
+  intros s ev q X Y Z. destruct (event_rel render e ev s q) as [F _].
+  destruct F as [F|[A [N _]]]; [intros [W|W]; contradiction | exact F |]. destruct Z; [congruence | contradiction].
+Qed.
+
+Theorem history_foreign : forall h s q,
+  (forall ev, In ev h -> ~ In q (targets (ev_cfg ev)) /\ ~ In q (child_targets e (ev_cfg ev))) ->
+  (s q <> None \/ forall ev, In ev h -> ~ In q (dir_targets e (ev_cfg ev))) ->
+  HIST s h q = s q.
+Proof.
+  intros h s q X Z. destruct (history_rel render e h s q) as [F _].
+  destruct F as [F|[[ev [Hev A]] [N _]]].
+  - intros [ev [Hev [W|W]]]; destruct (X ev Hev); contradiction.
+  - exact F.
+  - destruct Z as [Z|Z]; [congruence | exfalso; exact (Z ev Hev A)].
+Qed.
+
+Theorem foreign_dirs_only : forall h s q,
+  (forall ev, In ev h -> ~ In q (targets (ev_cfg ev)) /\ ~ In q (child_targets e (ev_cfg ev))) ->
+  HIST s h q = s q \/ (s q = None /\ HIST s h q = Some (new_dir e)).
+Proof.
+  intros h s q X. destruct (history_rel render e h s q) as [F _].
+  destruct F as [F|[_ [N F]]]; [|now left | right; auto].
+  intros [ev [Hev [W|W]]]; destruct (X ev Hev); contradiction.
+Qed.
+
+(* ---- no overwrite ---- *)
 Theorem no_overwrite_safe : forall s c q, c_allow c = false -> s q <> None -> fst (STEP s c) q = s q.
 Proof.
   intros s c q Ha Hq. rewrite step_flat. destruct (c_dryrun c) eqn:Hd.
@@ -604,62 +962,41 @@ Proof.
 Qed.
 
 Theorem no_overwrite_safe_history : forall h s0 q,
-  (forall c, In c h -> c_allow c = false) -> s0 q <> None -> HIST s0 h q = s0 q.
+  (forall ev, In ev h -> exists c, ev = Run c /\ c_allow c = false) -> s0 q <> None -> HIST s0 h q = s0 q.
 Proof.
-  induction h as [|c r IH]; intros s0 q Hall Hq; cbn [history fold_left]; [reflexivity|].
-  assert (E : fst (STEP s0 c) q = s0 q) by (apply no_overwrite_safe; [apply Hall; now left | exact Hq]).
+  induction h as [|ev r IH]; intros s0 q Hall Hq; cbn [history fold_left]; [reflexivity|].
+  destruct (Hall ev (or_introl eq_refl)) as [c [-> Ha]]. cbn [apply_event].
+  assert (E : fst (STEP s0 c) q = s0 q) by (now apply no_overwrite_safe).
   unfold history in IH. rewrite IH.
   - exact E.
-  - intros c' Hc'. apply Hall. now right.
+  - intros ev' H'. apply Hall. now right.
   - congruence.
-Qed.
-
-Theorem no_overwrite_error_iff : forall s c,
-  c_dryrun c = false -> c_allow c = false -> NoDup (targets c) ->
-  (forall p, In p (targets c) -> can_create e p = true) ->
-  (snd (STEP s c) = Err EExists <-> exists p, In p (targets c) /\ s p <> None).
-Proof.
-  intros s c Hd Ha Hnd Hc. rewrite step_flat. split.
-  - now apply list_noov_exists_pre.
-  - now apply list_noov_conflict.
-Qed.
-
-Theorem no_overwrite_ok_iff : forall s c,
-  c_dryrun c = false -> c_allow c = false -> NoDup (targets c) ->
-  (forall p, In p (targets c) -> can_create e p = true) ->
-  (snd (STEP s c) = Ok <-> forall p, In p (targets c) -> s p = None).
-Proof.
-  intros s c Hd Ha Hnd Hc. rewrite step_flat. split.
-  - intros H p Hin. destruct (s p) as [f|] eqn:E; [|reflexivity]. exfalso.
-    assert (X : snd (run_list (write_item render e c) s (items c)) = Err EExists).
-    { apply list_noov_conflict; auto. exists p. split; [exact Hin | congruence]. }
-    congruence.
-  - intros H. now apply list_noov_clean.
 Qed.
 
 Theorem no_overwrite_conflict_fails : forall s c,
   c_dryrun c = false -> c_allow c = false ->
   (exists p, In p (targets c) /\ s p <> None) -> snd (STEP s c) <> Ok.
-Proof. intros s c Hd Ha H. rewrite step_flat. now apply list_noov_conflict_fails. Qed.
+Proof. intros s c Hd Ha H. rewrite step_flat. apply (list_noov_conflict_fails render e c Hd Ha); auto. Qed.
 
 Theorem dry_run_inert : forall s c, c_dryrun c = true -> STEP s c = (s, Ok).
 Proof. intros s c Hd. rewrite step_flat. now apply list_dry. Qed.
 
+(* ---- totality ---- *)
 Theorem regen_total_history : forall h s0 c,
-  chmodable e s0 ->
-  (forall p, In p (targets c) -> can_create e p = true /\ (forall f, s0 p = Some f -> f_isdir f = false)) ->
+  chmodable e s0 -> (forall p, In p (targets c) -> ready e s0 p = true) ->
+  compatible e c c -> (forall ev, In ev h -> compatible e c (ev_cfg ev)) ->
   c_allow c = true -> c_dryrun c = false ->
   snd (STEP (HIST s0 h) c) = Ok.
 Proof.
-  intros h s0 c Hch Ht Ha Hd. rewrite step_flat.
+  intros h s0 c Hch Hr Hcc Hch' Ha Hd. rewrite step_flat.
   pose proof (history_rel render e h s0) as Rl.
-  apply list_total; auto.
+  apply (list_total render e Hind Hwf c Hd Ha Hcc); auto.
   - eapply rel_chmodable; eauto.
-  - intros p Hp. destruct (Ht p Hp) as [Hc Hdir]. unfold target_ready.
-    destruct (HIST s0 h p) as [f'|] eqn:E; [|exact Hc].
-    pose proof (rel_isdir render _ _ _ _ _ Rl E) as X. destruct (s0 p) as [f|] eqn:E0.
-    + rewrite X. now apply Hdir.
-    + exact X.
+  - intros p Hp. apply (ready_preserved e _ _ s0 _ p Rl).
+    + intros q Hq [ev [Hev Ht]]. apply (proj1 (Hch' ev Hev) q); [|exact Ht].
+      unfold anc, dir_targets. apply in_flat_map. eauto.
+    + intros [ev [Hev Han]]. apply (proj2 (Hch' ev Hev) p Han). now left.
+    + now apply Hr.
 Qed.
 
 Theorem chmodable_history : forall h s0, chmodable e s0 -> chmodable e (HIST s0 h).
@@ -669,26 +1006,61 @@ Proof. intros h s0 H. eapply rel_chmodable; [apply history_rel | exact H]. Qed.
 Theorem same_gate : forall c p k, c_dryrun c = false ->
   exists rest, forall s, write_item render e c s (p, k) = bind (handle_overwrite e s p (c_allow c)) rest.
 Proof.
-  intros c p k Hd. destruct k as [|[|]].
-  - eexists. intros s. unfold_writer Hd. rewrite bind_ret. reflexivity.
-  - eexists. intros s. unfold_writer Hd. rewrite bind_ret. reflexivity.
-  - eexists. intros s. unfold_writer Hd. reflexivity.
+  intros c p k Hd. exists (run_acts render e c p [AMkdirParents; body c k; AFilePPs]). intros s.
+  unfold write_item. cbn [fst snd]. rewrite flat_acts_shape by exact Hd. reflexivity.
+Qed.
+
+End Final.
+
+(* which paths a configuration writes: derived from the translated decisions, for every --generate-support / --omit value *)
+Theorem targets_derived : forall c,
+  targets c = (if should_generate_support (c_gensup c) (c_omit c)
+               then map fst (support_selection (c_omit c) (c_sersup c) (c_typesup c)) else [])
+              ++ (if generates_types (c_gensup c) then c_types c else []).
+Proof.
+  intros c. unfold targets, items. unfold cli_generate_phases. cbn [flat_map phase_items]. rewrite app_nil_r, map_app.
+  f_equal.
+  - destruct (should_generate_support (c_gensup c) (c_omit c)); [|reflexivity]. rewrite map_map. reflexivity.
+  - destruct (generates_types (c_gensup c)); [|reflexivity]. rewrite map_map. cbn [fst]. now rewrite map_id.
 Qed.
 
 Theorem cli_setfilemode_last : last cli_pp_list (false, KTrim) = (true, KSetFileMode).
 Proof. reflexivity. Qed.
 
-End Final.
+(* ------------------------------------------------------------------------------------------ *)
+(* witnesses                                                                                    *)
+(* ------------------------------------------------------------------------------------------ *)
+Definition wit_render : fs -> N -> N -> path -> N := fun _ _ cl p => 1000000 + cl * 10000 + p.
 
-(* without SetFileMode (possible through the Python API only) the mode of an overwritten file is not the mode of a fresh one *)
-Theorem mode_without_setfilemode_refuted : forall render : N -> path -> N,
-  exists e s c p, c_filepps c = [] /\ c_dryrun c = false /\ In p (targets c) /\
-                  snd (step render e s c) = Ok /\ snd (step render e empty_fs c) = Ok /\
-                  obs (fst (step render e s c) p) <> obs (fst (step render e empty_fs c) p).
+(* paths: 1 = nunavut/, 2 = nunavut/extra.hpp (target of a copied support file), 3 = nunavut/extra.hpp/extra.h, 4 = nunavut/x.hpp *)
+Definition wit_env (su : bool) : env :=
+  mkEnv su 18 true (fun p => if N.eqb p 2 then [1] else if N.eqb p 3 then [1; 2] else if N.eqb p 4 then [1] else [])
+        (fun p => p + 1).
+Definition wit_cfg (allow linepps : bool) (types : list path) (typesup : list (path * bool)) : cfg :=
+  mkCfg 7 0 allow false linepps [PPSetFileMode 292] GSAlways false [] typesup types 416.
+
+(* (b) of the audit: the unconditional "what is not a target does not change" is false: parent directories appear *)
+Theorem foreign_unconditional_refuted :
+  exists e s c q, ~ In q (targets c) /\ snd (step wit_render e s c) = Ok /\ fst (step wit_render e s c) q <> s q.
 Proof.
-  intros render.
-  exists (mkEnv false 18 (fun _ => true)), (upd empty_fs 1 (mkF 7 292 true false)),
-         (mkCfg 1 true false false [] false true [] [1] 420), 1.
-  repeat split; try reflexivity; try (now left).
-  vm_compute. intros H. injection H. discriminate.
+  exists (wit_env false), empty_fs, (wit_cfg true false [4] []), 1. vm_compute. repeat split; try discriminate. intuition discriminate.
+Qed.
+
+(* (a) of the audit: shutil.copy onto a directory.  Whether the code of /repo still behaves like this is computed from the
+   translated model: if the gate is changed to reject directories the premise is false and the statement is vacuous. *)
+Definition wit_dir_fs : fs := upd (upd empty_fs 1 (mkF 0 493 true true)) 2 (mkF 0 493 true true).
+Definition copy_into_dir_quirk : bool :=
+  is_ok (snd (step wit_render (wit_env false) wit_dir_fs (wit_cfg true false [] [(2, false)]))).
+
+Theorem copy_into_directory_refuted : copy_into_dir_quirk = true ->
+  exists e s c p, c_dryrun c = false /\ c_filepps c <> [] /\ In p (targets c) /\ dir_at_copy_target c s = true /\
+    snd (step wit_render e s c) = Ok /\
+    fs_is_dir (fst (step wit_render e s c)) p = true /\                      (* the "generated file" is still a directory ... *)
+    obs (fst (step wit_render e s c) p) = Some (0, 292) /\                   (* ... now with the mode requested for the file *)
+    ~ In (child e p) (targets c) /\ s (child e p) = None /\
+    obs (fst (step wit_render e s c) (child e p)) = Some (1070002, 416).     (* and a non-target appeared inside it *)
+Proof.
+  unfold copy_into_dir_quirk. intros H.
+  exists (wit_env false), wit_dir_fs, (wit_cfg true false [] [(2, false)]), 2.
+  vm_compute in H. first [discriminate H | clear H; vm_compute; intuition (try discriminate; try reflexivity)].
 Qed.
